@@ -398,7 +398,7 @@ class HTTP2Connection(ConnectionInterface):
                 # update that we are waiting for, while we were waiting to
                 # acquire the read lock. In which case we must not block on
                 # reading data that the server has no reason to send.
-                read_required = self._outgoing_flow(flow_control_stream_id) == 0
+                read_required = self._outgoing_flow(flow_control_stream_id) <= 0
             else:
                 read_required = stream_id is None or not self._events.get(stream_id)
 
@@ -575,7 +575,7 @@ class HTTP2Connection(ConnectionInterface):
         https://tools.ietf.org/html/rfc7540#section-6.9
         """
         flow = self._outgoing_flow(stream_id)
-        while flow == 0:
+        while flow <= 0:
             self._receive_events(request, flow_control_stream_id=stream_id)
             flow = self._outgoing_flow(stream_id)
         return flow
